@@ -254,8 +254,10 @@ PROPS = {
                     "from the same best solution's random source in an order decided by the scheduler). Fact theorems "
                     "(regenerated go-closure call table): the helper goroutines of a run call nothing that draws; every "
                     "place where the iteration order of a Go map could reach a result (regenerated list of map ranges in "
-                    "library and factory) is on a reviewed list (MapOrderFacts); every Maximum answers with a uniform hint "
-                    "per regime (CheckFacts). The closest-stop lists the island un-plan operators walk come out of a k-d tree "
+                    "library and factory) is on a reviewed list (MapOrderFacts); no loop over a map registers constraints or "
+                    "objective terms with the model except the one adding the no-mix constraints, whose hints are uniform "
+                    "(MapOrderFacts.no_registration_in_map_order / no_mix_hints_are_uniform; E46: the capacity constraints "
+                    "used to be added in map order — repaired); every Maximum answers with a uniform hint per regime (CheckFacts). The closest-stop lists the island un-plan operators walk come out of a k-d tree "
                     "whose visiting order depends on a process-wide random source (E43, repaired): NR.Closest models the "
                     "repaired query, proved independent of the visiting order and equal to the first n of all other stops in "
                     "(distance, index) order (C12C), tied to the code by the `closest` stream (every query on freshly built "
